@@ -81,6 +81,19 @@ func init() {
 		Assumptions: append(append([]string{}, c11S1.Assumptions...), kAssume...),
 		Parts:       []*vcore.Prop{c11S1, c11K},
 	})
+	c14K := &vcore.Prop{
+		ID: "C14", Level: "exploration", Worlds: "K", NeedNS: true,
+		Quick:    vcore.Budget{Wall: 20 * time.Second, Shards: 16},
+		Thorough: vcore.Budget{Wall: 8 * time.Minute, Shards: 16},
+		Init:     kInit, Run: c14KRun, StallLimit: 150 * time.Second,
+	}
+	register(&vcore.Prop{
+		ID: "C14", Level: "exploration", Worlds: "S1+K",
+		Rule:        c14S1.Rule + " || world K: one run = a program inside a real container plants up to six objects (file, directory, link to a file / a directory / another mount / nowhere / itself / a FIFO, FIFO, socket, mode-000 file) under the names the host is about to use; the host then issues one Open batch of 1..6 items (read/write/create/truncate, with and without MkdirAll, also below a planted object) and optionally a Symlink batch; every descriptor is compared from outside (lstat through /proc/<init>/root) with the object at the path of its index, nothing may have been created through a planted link, the batch must return within 20 s, the environment must answer a Ping afterwards",
+		Components:  mergeComponents(s1Components, kComponents),
+		Assumptions: append(append([]string{}, c14S1.Assumptions...), kAssume...),
+		Parts:       []*vcore.Prop{c14S1, c14K},
+	})
 	c12K := &vcore.Prop{
 		ID: "C12", Level: "exploration", Worlds: "K", NeedNS: true,
 		Quick:    vcore.Budget{Wall: 25 * time.Second, Shards: 16},
